@@ -3,6 +3,7 @@
 package model
 
 import (
+	"fmt"
 	"io/fs"
 	"os"
 	"path/filepath"
@@ -150,8 +151,49 @@ type Entry struct {
 	IsDir bool
 }
 
-// Walk lists every entry below root (relative, slash-separated), without following links.
+// Walk lists every entry below root (relative, slash-separated). A symbolic link to a directory
+// is a directory (its contents are listed below the link's own path, as a path-based reader sees
+// them); a link to a file, or one that leads nowhere, is a non-directory entry. Trees handed to
+// Walk must not contain links that lead back up the tree (depth is capped as a safety net).
 func Walk(root string) ([]Entry, error) {
+	var out []Entry
+	var walk func(dir, rel string, depth int) error
+	walk = func(dir, rel string, depth int) error {
+		if depth > 24 {
+			return fmt.Errorf("model.Walk: directory nesting deeper than 24 below %s (link cycle?)", root)
+		}
+		list, err := os.ReadDir(dir)
+		if err != nil {
+			return err
+		}
+		for _, d := range list {
+			r := d.Name()
+			if rel != "" {
+				r = rel + "/" + d.Name()
+			}
+			p := filepath.Join(dir, d.Name())
+			isDir := d.IsDir()
+			if d.Type()&fs.ModeSymlink != 0 {
+				if st, err := os.Stat(p); err == nil && st.IsDir() {
+					isDir = true
+				}
+			}
+			out = append(out, Entry{Rel: r, IsDir: isDir})
+			if isDir {
+				if err := walk(p, r, depth+1); err != nil {
+					return err
+				}
+			}
+		}
+		return nil
+	}
+	err := walk(root, "", 0)
+	return out, err
+}
+
+// WalkNoFollow lists every entry below root without following links: a link is a
+// non-directory entry whatever it points at.
+func WalkNoFollow(root string) ([]Entry, error) {
 	var out []Entry
 	err := filepath.WalkDir(root, func(path string, d fs.DirEntry, err error) error {
 		if err != nil {
